@@ -611,7 +611,27 @@ class SinkDestroy(SinkInit):
                        text="not registered() and len(super_calls) == 1 and super_calls[0] == 'Stream.destroy'")]
 
 
-ALL += [SinkInit, SinkDestroy]
+class SinkDestroyNotRegistered(SinkInit):
+    """destroy() of a sink that is not in the registry (it was destroyed once and plugged in again with connect(); the registry is
+    only a keep-alive): the sink is still attached to its inputs, and destroy() must detach it whatever it does about the registry."""
+    qual = 'Sink.destroy'
+    name = 'Sink.destroy[sink attached again after an earlier destroy]'
+
+    def build(self, I):
+        r = SinkInit.build(self, I)
+        c = I.st.heap[I.st.ghost['global_sinks'].loc]
+        I.st.assume(z3.Not(z3.Select(c.member, self.me)))
+        self.pre_state = I.st.snapshot()
+        I.st.ghost['_pre'] = (self.pre_state, self.pre_args)
+        return r[0], [], {}
+
+    def clauses(self):
+        return [Clause('C15.destroy_detaches_the_sink_even_if_it_is_not_registered', ['C15'], when='any',
+                       text="len(super_calls) == 1 and super_calls[0] == 'Stream.destroy'",
+                       note='delivery follows the edges that exist: after destroy() no edge leads to the sink, registered or not')]
+
+
+ALL += [SinkInit, SinkDestroy, SinkDestroyNotRegistered]
 
 
 # --------------------------------------------------------------------------- frame of the sink registry (syntactic)
